@@ -68,11 +68,15 @@ func TestPropName(t *testing.T) {
 		default:
 			name, _ = drawName(t, "name")
 		}
+		name = excludeKnown(name)
 		c := nameCase(name, rapid.IntRange(0, 4).Draw(t, "k"), rapid.Bool().Draw(t, "crc"))
 		r := check(t, c, 60*time.Second)
-		sig, _ := r.signature()
-		// every executed name case has an overwrite/delete/two repos when the name is accepted
-		stats.Case("name "+sig, r.nSet > 1, func() interface{} { return c })
+		// every executed name case has an overwrite, a delete and two repos when the name is accepted: it is
+		// non-trivial when the name is outside the documented alphabet; distinct by name class, verdict,
+		// name length class, prefix length and store flavour
+		cls := nameClass(name, "hostile")
+		sig := fmt.Sprintf("name cls=%s accepted=%v len=%s k=%d crc=%v", cls, r.nSet > 1, bucket(len(name)), len([]rune(c.Ops[4].Prefix)), c.CRC)
+		stats.Case(sig, !documented(name), func() interface{} { return c })
 		stats.Count("name_cases", 1)
 		if r.nSet > 1 {
 			stats.Count("name_accepted_"+nameClass(name, "hostile"), 1)
@@ -100,7 +104,7 @@ func FuzzLabelName(f *testing.F) {
 		}
 	}
 	f.Fuzz(func(t *testing.T, name string, k uint8, crc bool) {
-		if len(name) > 256 {
+		if len(name) > 256 || (strings.Contains(name, "/") && hx.Known(knownSlash)) {
 			t.Skip()
 		}
 		c := nameCase(name, int(k%8), crc)
@@ -177,7 +181,15 @@ func TestRegressSlashName(t *testing.T) {
 			op("del", 0, n, 0),
 			{Kind: "list", Repo: 0, Apply: true},
 		}}
-		r := check(t, c, 60*time.Second)
+		r, err := try(c, 60*time.Second)
+		if err != nil {
+			if hx.Listed(knownSlash) {
+				stats.KnownFinding(knownSlash, "Label.UploadDescriptor accepts a name with '/' and ListLabels then fails for the whole repository")
+				return
+			}
+			stats.Violation(err.Error())
+			t.Fatalf("label name %+q: %v", n, err)
+		}
 		record(c, r)
 	}
 }
@@ -191,6 +203,9 @@ func TestRegressNames(t *testing.T) {
 	all = append(all, keyPool...)
 	all = append(all, asciiPool...)
 	for i, n := range all {
+		if strings.Contains(n, "/") && hx.Known(knownSlash) {
+			continue // TestRegressSlashName reports it
+		}
 		c := nameCase(n, i%4, i%2 == 0)
 		r := check(t, c, 60*time.Second)
 		record(c, r)
